@@ -45,6 +45,25 @@ def ring_ob(ck, name, d, clause, rel=(), hyps=(), replay=None, kind="post"):
     return ck.direct(name, False, kind, "ring back end + 40-digit numeric witness", clause=clause, note="identity fails at %s" % r[1], witness=r[1], replay_out=out)
 
 
+def native_init(ck=None):
+    """the configured minimum line-of-sight length of the real object against the law of cosines, for bands inside and beyond the nadir"""
+    from astropy import units
+    from astropy.constants import R_earth
+
+    Rn = R_earth.to(units.km).value
+    n = 0
+    for alt, limb_deg in ((525.0, 7.0), (33.0, 3.0), (36000.0, 7.0), (60000.0, 7.0), (525.0, 70.0), (33.0, 85.0), (525.0, 67.0)):
+        g = native_geom(alt, 0.3, -1.1, np.radians(limb_deg))
+        Hn = Rn + alt
+        a = np.arcsin(Rn / Hn) - np.radians(limb_deg)
+        want = Hn * np.cos(a) - np.sqrt(Rn**2 - (Hn * np.sin(a)) ** 2)
+        n += 1
+        if not (abs(float(g.minLOSpathLen) - want) <= 1e-7 * want):
+            return {"violated": True, "input": {"altitude": alt, "angle_from_limb_deg": limb_deg}, "observed": {"minLOSpathLen": float(g.minLOSpathLen), "near intersection of the ray at nadir angle alpha_H - limb": float(want)},
+                    "clause": "the configured minimum length is the near intersection with the Earth of the ray at nadir angle alpha_H - angle_from_limb"}
+    return {"violated": False, "evaluations": n}
+
+
 def init_obligations(ck, run):
     init = run.holder["init"]
     qn = "region_geometry:RegionGeom.__init__"
@@ -56,9 +75,10 @@ def init_obligations(ck, run):
     # Lmin: smaller root of L^2 - 2 H cos(alpha_H - limb) L + H^2 - R^2 = 0 (law of cosines at nadir angle alpha_H - limb)
     am = aH - LIMB
     ok = prover.ring_zero(Lmind**2 - 2 * Hd * sp.cos(am) * Lmind + Hd**2 - R**2)
-    ck.direct("%s/post.Lmin.root" % qn, bool(ok), "post", "polynomial ideal membership (ring back end)", clause="minLOSpathLen solves L^2 - 2 H cos(alpha_H - limb) L + H^2 - R^2 = 0 (law of cosines in the Earth-centre / detector / spot triangle)")
+    ck.direct("%s/post.Lmin.root" % qn, bool(ok), "post", "polynomial ideal membership (ring back end)", clause="minLOSpathLen solves L^2 - 2 H cos(alpha_H - limb) L + H^2 - R^2 = 0 (law of cosines in the Earth-centre / detector / spot triangle)",
+              replay_out=None if ok else native_init(ck))
     ok2 = prover.ring_zero(Lmind - (Hd * sp.cos(am) - sp.sqrt(R**2 - (Hd * sp.sin(am)) ** 2)))
-    ck.direct("%s/post.Lmin.smaller" % qn, bool(ok2), "post", "ring back end", clause="it is the smaller root H cos(a) - sqrt(R^2 - H^2 sin^2 a) (near side of the Earth)")
+    ck.direct("%s/post.Lmin.smaller" % qn, bool(ok2), "post", "ring back end", clause="it is the smaller root H cos(a) - sqrt(R^2 - H^2 sin^2 a) (near side of the Earth)", replay_out=None if ok2 else native_init(ck))
     ck.direct("%s/post.sin_theta_max" % qn, sp.simplify(sthd - sp.sin(THMAX)) == 0 and sp.simplify(init["maxPhiS"].e - DPHI / 2) == 0 and sp.simplify(init["minPhiS"].e + DPHI / 2) == 0, "post", "sympy normal form",
               clause="cone and azimuth limits are sin(max_cherenkov_angle) and +- max_azimuth_angle / 2")
     return Hd, Lmind, Lmaxd, sthd
@@ -475,5 +495,7 @@ def run(ck):
         throw_obligations(ck, run_)
         traj_obligations(ck, run_)
         ck.cover("throw/pre", BASE + UBOX + [sp.Eq(R, sym.rat(6378.1)), sp.Eq(H, 6903), sp.Eq(LMIN, 1500)])
+    ck.bounded_run("configured minimum length, bands inside and beyond the nadir", lambda: (lambda o: {"evaluations": o.get("evaluations", 1), "failures": [{"obligation": "bounded.init", "clause": o["clause"], "input": o["input"], "observed": o["observed"]}] if o.get("violated") else []})(native_init(ck)),
+                   design="7 (altitude, angle from limb) pairs incl. 60000 km / 7 deg and 525 km / 70 deg (alpha_H - limb < 0): minLOSpathLen vs the law of cosines")
     ck.bounded_run("fragile-guard replay on the faces of the cube", lambda: fragile(ck), design="u4 in {0, 1, nextafter(0), nextafter(1), 0.5} x 8 detector altitudes, other coordinates seeded inside the cube; full explicit-vector oracle per event")
     ck.bounded_run("explicit-vector oracle on seeded interior events", lambda: bounded_interior(ck), design="4 detector configurations x 400 (quick) / 4000 (thorough) events")
